@@ -23,6 +23,7 @@ RULE = (
     "or the whole sequence queued at once (burst), incl. bursts whose frames add up to more than 64 KiB; then the write stream is closed; oracle on the bytes recorded at the child's stdin: ends with LF, exactly one line per serialisable item in order, no raw CR/LF inside a line, each line "
     "is UTF-8 JSON equal (type-strict) to the item with absent optional members omitted, unserialisable items leave no bytes, stdin closed after the write stream closes; "
     "non-trivial = an unserialisable item followed by a serialisable one, or a payload with a raw line-break character, or a nested null; distinct = distinct sequence"
+    "; added in rounds 6-7 of the seeded changes: child not reading stdin for 0.01..600 s (frame untouched or queued by the pipe); per-request streams registered and unanswered at close; logging at DEBUG"
 )
 ASSUMPTIONS = [
     "pre-serialised strings are single-line JSON (the documented accepted shape); they must pass through unchanged as a value",
